@@ -1,8 +1,229 @@
 import SLModel.Drv.Util
+import SLModel.Core.CursorBytes
+import SLModel.Core.PlanLeaf
+import SLModel.Core.Script
+import SLModel.Core.Msm
 open Lean
 namespace SL.Drv.C16
+open SL.Drv
 
-/-- stub: no model operations for C16 yet -/
-def handle (_req : Json) : Except String Json := .error "C16: not implemented"
+/-! JSON glue for C16.  Every answer is computed by the definitions the theorems of
+`Props/C16` are about (`decodeScore`, `hexDecode`, `legacy…`, `plan`, `segmentVerdict`,
+`compile`, `eval`, `wf`, `depth`, `resolve`). -/
+
+def strArr (j : Json) : Except String (List String) := do
+  let a ← j.getArr?
+  a.toList.mapM (·.getStr?)
+
+/-! ### cursors -/
+open SL.CursorBytes in
+def scoreJson (o : Out ScoreCursor) : Json :=
+  match o with
+  | .ok c => Json.mkObj [("cls", "ok"), ("generation", c.generation), ("score_bits", c.scoreBits),
+      ("segment_ord", c.segmentOrd), ("doc_id", c.docId), ("returned", c.returned)]
+  | .err e => Json.mkObj [("cls", "error"), ("why", e)]
+  | .panic => Json.mkObj [("cls", "panic")]
+
+open SL.CursorBytes in
+def bytesOutJson (o : Out (List Nat)) : Json :=
+  match o with
+  | .ok bs => Json.mkObj [("cls", "ok"), ("bytes", natsToJson bs)]
+  | .err e => Json.mkObj [("cls", "error"), ("why", e)]
+  | .panic => Json.mkObj [("cls", "panic")]
+
+open SL.CursorBytes in
+def cursorOp (req : Json) : Except String Json := do
+  let bs ← natList (← req.getObjVal? "bytes")
+  let gen := getNatD req "gen" 0
+  return Json.mkObj [
+    ("fast_plus", scoreJson (decodeCursorFast true bs gen)),
+    ("fast_noplus", scoreJson (decodeCursorFast false bs gen)),
+    ("decode_plus", scoreJson (decodeScore true bs)),
+    ("decode_noplus", scoreJson (decodeScore false bs)),
+    ("hex_plus", bytesOutJson (hexDecode true bs)),
+    ("hex_noplus", bytesOutJson (hexDecode false bs)),
+    ("legacy_fast", (legacyScore true bs).cls),
+    ("legacy_hex", (legacyHexDecode true bs).cls),
+    ("first_bad_chunk", match firstBadChunk bs with | some k => (k : Json) | none => Json.null),
+    ("first_bad_digit", match firstBadDigit true bs with | some k => (k : Json) | none => Json.null)]
+
+/-! ### planner -/
+open SL.PlanLeaf
+
+def expOf (s : String) : Exp :=
+  match s with
+  | "prefix" => .pre
+  | "wildcard" => .wildcard
+  | "regex" => .regex
+  | _ => .exact
+
+def expName : Exp → String
+  | .exact => "exact" | .pre => "prefix" | .wildcard => "wildcard" | .regex => "regex"
+
+def qterm (j : Json) : Except String (QTerm String) := do
+  let a ← j.getArr?
+  match a.toList with
+  | [f, t] =>
+    let field := match f.getStr? with | .ok s => some s | .error _ => none
+    return ⟨field, ← t.getStr?⟩
+  | _ => throw "qterm: expected [field|null, term]"
+
+partial def parseQ (j : Json) : Except String (Q String) := do
+  let t ← getStr j "t"
+  match t with
+  | "match_all" => return .matchAll
+  | "qs" =>
+    let terms ← (getArrD j "terms").toList.mapM qterm
+    let nots ← (getArrD j "nots").toList.mapM qterm
+    let fields ← match getOpt j "fields" with
+      | some f => some <$> strArr f
+      | none => pure none
+    return .queryString terms nots fields
+  | "mm" =>
+    let kind := match getStrD j "kind" "best" with
+      | "most" => MM.most | "cross" => MM.cross | _ => MM.best
+    return .multiMatch kind (← strArr (← j.getObjVal? "terms")) (← strArr (← j.getObjVal? "nots"))
+      (← strArr (← j.getObjVal? "fields"))
+  | "term" => return .term (expOf (getStrD j "exp" "exact")) (← getStr j "field") (← getStr j "value")
+  | "phrase" => return .phrase
+  | "bool" =>
+    return .bool (← (getArrD j "must").toList.mapM parseQ) (← (getArrD j "should").toList.mapM parseQ)
+      (← (getArrD j "must_not").toList.mapM parseQ)
+  | "dis_max" => return .disMax (← (getArrD j "queries").toList.mapM parseQ)
+  | "constant" => return .constantScore
+  | "rank" => return .rankFeature
+  | "fs" => return .functionScore (← parseQ (← j.getObjVal? "q"))
+  | "ss" => return .scriptScore (← parseQ (← j.getObjVal? "q"))
+  | _ => throw s!"C16: unknown query node {t}"
+
+/-- `keys`: `[[field, term, exp, [key, …]], …]` — the term keys the real analysis/expansion
+produced for each (field, term, expansion kind) -/
+def keyTable (j : Json) : Except String (List ((String × String × String) × List String)) := do
+  let a ← j.getArr?
+  a.toList.mapM fun row => do
+    let r ← row.getArr?
+    match r.toList with
+    | [f, t, e, ks] => return ((← f.getStr?, ← t.getStr?, ← e.getStr?), ← strArr ks)
+    | _ => throw "keys: expected [field, term, exp, [keys]]"
+
+def planOp (req : Json) : Except String Json := do
+  let dflt ← strArr (← req.getObjVal? "dflt")
+  let q ← parseQ (← req.getObjVal? "q")
+  let tbl ← keyTable (← req.getObjVal? "keys")
+  let keysOf : String → String → Exp → List String := fun f t e =>
+    match tbl.lookup (f, t, expName e) with
+    | some ks => ks
+    | none => []
+  let p := plan dflt q
+  let qts := qualified keysOf p.groups
+  let verdict := match segmentVerdict keysOf p with
+    | .fine => "fine" | .inconsistentLeaf => "inconsistent-leaf" | .leafOutOfRange => "leaf-out-of-range"
+  -- every (field, term, exp) slot the plan asks keys for, so the harness can check its table
+  let asked := p.groups.flatMap fun g => g.fields.map fun s =>
+    Json.arr #[s.field, g.term, expName g.exp]
+  return Json.mkObj [
+    ("verdict", verdict),
+    ("leaf_count", p.leafCount),
+    ("has_scorer", p.scorer.isSome),
+    ("groups", p.groups.length),
+    ("qualified", Json.arr (qts.map fun (k, l) => Json.arr #[k, l]).toArray),
+    ("functional", functional qts),
+    ("slots_disjoint", slotsDisjoint (slots keysOf p.groups)),
+    ("asked", Json.arr asked.toArray)]
+
+/-! ### scripts -/
+open SL.Script
+
+def floatArith : Arith Float where
+  add := fun a b => let v := a + b; if v.isFinite then some v else none
+  sub := fun a b => let v := a - b; if v.isFinite then some v else none
+  mul := fun a b => let v := a * b; if v.isFinite then some v else none
+  div := fun a b => if b == 0.0 then none else (let v := a / b; if v.isFinite then some v else none)
+  neg := fun a => let v := -a; if v.isFinite then some v else none
+  finite := fun v => v.isFinite
+
+/-- `str::parse::<f64>` on `[0-9.]+` -/
+def litValue (neg : Bool) (lit : List Nat) : Float :=
+  let digits := lit.filter isDigit
+  let mant := digits.foldl (fun acc d => acc * 10 + (d - 48)) 0
+  let fracLen := ((lit.dropWhile (· != 46)).drop 1).length
+  let v := Float.ofScientific mant true fracLen
+  if neg then -v else v
+
+def floatJson (f : Float) : Json :=
+  match JsonNumber.fromFloat? f with
+  | .inr n => Json.num n
+  | .inl s => Json.str s
+
+def getFloat (j : Json) : Except String Float := do
+  let n ← j.getNum?
+  return n.toFloat
+
+def codepoints (j : Json) : Except String (List Nat) := natList j
+
+def scriptOp (req : Json) : Except String Json := do
+  let chars ← codepoints (← req.getObjVal? "chars")
+  let params ← (getArrD req "params").toList.mapM codepoints
+  let pvals ← (getArrD req "param_values").toList.mapM getFloat
+  let fast ← (getArrD req "fast").toList.mapM codepoints
+  let fvals ← (getArrD req "fast_values").toList.mapM getFloat
+  let score ← match getOpt req "score" with
+    | some s => getFloat s
+    | none => pure 0.0
+  let toks := tokenize chars
+  let wfj : Json := match toks with
+    | some t => (wf t true 0 : Json)
+    | none => Json.null
+  match compile chars params fast with
+  | none => return Json.mkObj [("cls", "error"), ("tokenized", toks.isSome), ("wf", wfj)]
+  | some c =>
+    let fieldVal : Nat → Float := fun i =>
+      match c.fields[i]? with
+      | some name =>
+        (match (fast.zip fvals).lookup name with
+         | some v => v
+         | none => 0.0)
+      | none => 0.0
+    let env : Env Float := ⟨litValue, pvals, fieldVal, c.fields.length, score⟩
+    let r := eval floatArith env c.instrs
+    let ev : Json := match r with
+      | .some v => floatJson v
+      | _ => Json.null
+    return Json.mkObj [
+      ("cls", "ok"), ("tokenized", true), ("wf", wfj),
+      ("instrs", c.instrs.length),
+      ("depth", match depth c.instrs 0 with | some d => (d : Json) | none => Json.null),
+      ("eval", ev), ("eval_panic", r.isPanic),
+      -- exact value: IEEE-754 bits (the decimal rendering above is for reading only)
+      ("eval_bits", match r with | .some v => (v.toBits.toNat : Json) | _ => Json.null),
+      ("fields", Json.arr (c.fields.map natsToJson).toArray)]
+
+/-! ### minimum_should_match -/
+open SL.Msm
+
+def msmOp (req : Json) : Except String Json := do
+  let n ← getNat req "n"
+  let opAnd := getBoolD req "and" false
+  let spec : Option Spec ← match getOpt req "spec" with
+    | none => pure none
+    | some s =>
+      match getOpt s "value" with
+      | some v => pure (some (.value (← v.getNat?)))
+      | none => pure (some (.pct (← natList (← s.getObjVal? "pct"))))
+  let r := resolve decimal parseDec spec n opAnd
+  return match r with
+    | .ok (some k) => Json.mkObj [("cls", "ok"), ("required", k)]
+    | .ok none => Json.mkObj [("cls", "ok"), ("required", Json.null)]
+    | .err => Json.mkObj [("cls", "error")]
+    | .panic => Json.mkObj [("cls", "panic")]
+
+def handle (req : Json) : Except String Json := do
+  let op ← getStr req "op"
+  match op with
+  | "cursor" => cursorOp req
+  | "plan" => planOp req
+  | "script" => scriptOp req
+  | "msm" => msmOp req
+  | _ => throw s!"C16: unknown op {op}"
 
 end SL.Drv.C16
